@@ -1,5 +1,5 @@
 """C04 — emitted DirectX HLSL is accepted by the front end and is a fixpoint."""
-# streams of `harness c04`: C04.fix (whole-program byte fixpoint: decl / gen / lit / disk / text), C04.reelab (second IR
+# streams of `harness c04`: C04.fix (whole-program byte fixpoint: decl / gen / lit / tpl / disk / text), C04.reelab (second IR
 # against the elaboration model), C04.names (name resolution of the emitted paths against Model.FixpointNames)
 import os
 import subprocess
@@ -65,7 +65,7 @@ def _source_of(ident):
             return bytes.fromhex(ident[5:]).decode("utf-8", "replace")
         except ValueError:
             return None
-    if ident.startswith(("lit:", "gen:", "decl:")):
+    if ident.startswith(("lit:", "gen:", "decl:", "tpl:")):
         try:
             r = subprocess.run([_harness_exe(), "c04", "source", ident], capture_output=True, text=True, timeout=60)
         except Exception:
@@ -201,9 +201,39 @@ TEMPLATE_LOOKAHEAD_KEY = "rejected-by-parser: less-than ... greater-than followe
 CBUFFER_LEAF_KEY = "rejected: member of a cbuffer declared in a namespace is printed by its leaf name outside the namespace"
 
 
+TPL_INT32_KEY = ("not-fixpoint: a template value argument of kind Int32 is printed bare at the call site and read back as "
+                 "an int literal")
+
+
+def _typed_int_template_arguments_only(src):
+    """free-form source (corpus reproducer): there are template instantiations with value arguments and every one of them
+    has an argument of kind Int32 - a cast `(int)..` or a `static const int` name"""
+    import re
+    consts = set(re.findall(r"static\s+const\s+int\s+(\w+)", src))
+    inst = re.findall(r"\b\w+<([^<>;{}]*)>\s*\(", src)
+    inst = [a for a in inst if not re.fullmatch(r"\s*(int|uint|float|bool|half|double)\d?(x\d)?\s*", a)]
+    if not inst:
+        return False
+    for a in inst:
+        if "(int)" in a:
+            continue
+        if any(re.search(r"\b%s\b" % re.escape(c), a) for c in consts):
+            continue
+        return False
+    return True
+
+
 def finding_key(req, obs, detail):
     # key by the first differing line class / rejection message, not by the whole program
     import re
+    if req.startswith("C04.fix\ttpl:") and "[tpl: int32-template-argument-printed-bare]" in (detail or ""):
+        # named by the generator's own record of argument kinds (harness/src/c04/tmpl.rs classify): the first differing
+        # line lies in an instance every call of which was written with an Int32 argument
+        return TPL_INT32_KEY
+    if req.startswith("C04.fix\ttext:") and "second generation differs" in (detail or "") and "(int)(" in (detail or ""):
+        src = _source_of(req.split("\t")[1]) or ""
+        if _typed_int_template_arguments_only(src):
+            return TPL_INT32_KEY
     if req.startswith("C04.names\t"):
         # the class the harness's scope simulation names, else the specific descriptor (the printed names are derived)
         return _names_class(detail) or "C04.names\t" + req.split("\t")[1]
